@@ -15,7 +15,7 @@ EXPLANATION = (
     "R4.4 PossibleValue::matches compares against get_name_and_aliases() and uses eq_ignore_case only on the ignore_case edge. "
     "R4.5 typed access: every unwrap_downcast_{ref,into}/downcast_ref().expect in arg_matches.rs is dominated by "
     "try_get_arg_t/try_remove_arg_t in the same function; in try_remove_arg_t every path from remove_entry to an Err return "
-    "re-inserts the entry. NOT decided: the accepted language of str::parse::<i64> (std), exhaustive boundary behaviour."
+    "re-inserts the entry. R4.5b MatchedArg::infer_type_id answers with the declared type id first (values only as a fallback). NOT decided: the accepted language of str::parse::<i64> (std), exhaustive boundary behaviour."
 )
 TRUSTED = ["rustc MIR + HIR", "clapfacts", "std str::parse / TryFrom for integers"]
 ASSUMPTIONS = ["user-defined TypedValueParser impls are outside this property"]
@@ -218,3 +218,12 @@ def run(ctx):
               "try_remove_arg_t can return Err after taking the entry out without putting it back (stored values are lost on a wrong-type remove)")
     ex = [e for e in errs if e not in after]
     res.ok("R4.5", "pre-removal-errors", tr.where(), "%d Err path(s) before the removal leave the map untouched" % len(ex))
+
+
+    # ---- R4.5b the declared value type decides typed access even when no value is stored
+    iti = fx.body("clap_builder::parser::matches::matched_arg::MatchedArg::infer_type_id")
+    e0 = expr(iti, {"cp": 0})
+    defs0 = [expr(iti, d[3]["op"]) if isinstance(d[3], dict) and d[3]["k"] == "use" else "" for d in iti.def_sites(0)]
+    uses_declared = bool(iti.calls_to(r"MatchedArg::type_id$")) and ("type_id(self)" in e0 or any("type_id(self)#Some.0" in x for x in defs0))
+    res.check(uses_declared, "R4.5", "declared-type-first", iti.where(), "infer_type_id answers with the argument's declared type id when there is one",
+              "MatchedArg::infer_type_id no longer consults the declared type (result: %s): for an argument present without values a wrong-type get returns Ok(None) and a wrong-type remove deletes the entry" % e0[:90])
